@@ -84,6 +84,67 @@ def cache_stage(rep, work, vh, tier, seed, replay_sc=None):
             "sample": scs[-1] if scs else None}
 
 
+CONC_LEADS = [["list", "ccreate", "cwrite", "cunlink", "visit", "visit", "return"],
+              ["ccreate", "list", "visit", "cwrite", "visit", "cunlink", "visit", "return"],
+              ["list", "visit", "ccreate", "cwrite", "cunlink", "open2", "write2", "visit", "return"]]
+
+
+def conc_stage(rep, work, vh, tier, seed, replay_sc=None):
+    """A query while the recorder ends a run and begins the next: HistoryConc.tla checked exhaustively, its behaviours
+    replayed through the gates of the real jsondb, every gate passage validated by HistoryConcTrace.tla."""
+    q = tier == "quick"
+    states, transitions, runs = rc.model_check(work, "HistoryConc", ["MC_C06_conc_relist_n1.cfg", "MC_C06_conc_relist_n2.cfg"], workers=2)
+    scs = []
+    if replay_sc:
+        scs = [replay_sc]
+    else:
+        for k, steps in enumerate(CONC_LEADS):
+            for qk, n in [("today", 1), ("recent", 1), ("recent", 2)]:
+                scs.append({"scen": 800000 + len(scs), "src": "lead", "query": qk, "n": n, "steps": [{"a": a, "r": ""} for a in steps]})
+        for n in (1, 2):
+            d = os.path.join(work, "concsim%d" % n)
+            os.makedirs(d)
+            r = vp.tlc(d, "MCHistoryConc", "MC_C06_conc_sim_n%d.cfg" % n, workers=1, timeout=900,
+                       simulate="num=%d" % (300 if q else 3000), extra=["-depth", "40", "-seed", str(seed)])
+            seen = set()
+            for obj in vp.parse_prints(r["out"], "BEHAVIOUR"):
+                key = json.dumps(obj["steps"])
+                if key in seen:
+                    continue
+                seen.add(key)
+                for qk in (["today", "recent"] if n == 1 else ["recent"]):
+                    scs.append({"scen": 810000 + len(scs), "src": "model", "query": qk, "n": n, "steps": obj["steps"]})
+            shutil.rmtree(d, ignore_errors=True)
+    scen_path = os.path.join(work, "conc.jsonl")
+    with open(scen_path, "w") as f:
+        for s in scs:
+            f.write(json.dumps(s) + "\n")
+    trace = os.path.join(work, "conc.ndjson")
+    rc.run_vh(vh, ["cache", "-conc", "-scenarios", scen_path, "-out", trace])
+    chunks = sc.split_trace(trace, vp.NCPU, os.path.join(work, "concobs"))
+    by_id = {s["scen"]: s for s in scs}
+    events = 0
+    def obs(d):
+        v, consumed, r = vp.observe(d, "HistoryConcTrace", os.path.join(d, "trace.ndjson"))
+        return v, consumed
+    with cf.ThreadPoolExecutor(max_workers=vp.NCPU) as ex:
+        for verdicts, consumed in ex.map(obs, chunks):
+            events += consumed
+            for v in verdicts:
+                s = by_id.get(v["scen"], {})
+                if "INFRA" in v["viol"]:
+                    raise Infra("conc rig: %s" % json.dumps(v["rec"]))
+                for c in v["viol"]:
+                    if c.startswith("DRIFT"):
+                        rep.drift.append("%s scen=%s line=%s rec=%s" % (c, v["scen"], v["line"], json.dumps(v["rec"], sort_keys=True)))
+                    else:
+                        rep.violation({"clause": c, "stage": "conc", "query": s.get("query"), "n": s.get("n")},
+                                      {"conc_scenario": s, "first_mismatch": v["rec"]})
+    relists = sum(1 for line in open(trace) if '"a":"relist"' in line)
+    return {"states": states, "transitions": transitions, "runs": runs, "scenarios": len(scs), "events": events, "relists": relists,
+            "sample": scs[-1] if scs else None}
+
+
 def run(prop, tier, seed, replay=None):
     rep = vp.Report(prop, tier, seed, "model_checking")
     vh = vp.build_harness()
@@ -93,6 +154,12 @@ def run(prop, tier, seed, replay=None):
         cache_replay = None
         if replay:
             cache_replay = json.load(open(replay))["replay"].get("cache_scenario")
+        conc_replay = json.load(open(replay))["replay"].get("conc_scenario") if replay else None
+        if conc_replay:
+            c = conc_stage(rep, work, vh, tier, seed, conc_replay)
+            rep.cov.update({"states": c["states"], "transitions": c["transitions"], "model_checking_runs": c["runs"],
+                            "traces_validated_against_impl": c["scenarios"], "trace_events": c["events"], "exhaustive": False})
+            return rep.finish()
         if cache_replay:
             c = cache_stage(rep, work, vh, tier, seed, cache_replay)
             rep.cov.update({"states": c["states"], "transitions": c["transitions"], "model_checking_runs": c["runs"],
@@ -100,6 +167,7 @@ def run(prop, tier, seed, replay=None):
             return rep.finish()
         states, transitions, runs = rc.model_check(work, "MCHistory", ["MC_C06.cfg"])
         cstage = None if replay else cache_stage(rep, work, vh, tier, seed)
+        kstage = None if replay else conc_stage(rep, work, vh, tier, seed)
         scen_path = os.path.join(work, "scen.jsonl")
         scenarios = []
         if replay:
@@ -182,8 +250,19 @@ def run(prop, tier, seed, replay=None):
                                               "Write of a second JSONDB, Update); every gate passage is matched with the specification's action by FileCacheTrace.tla and "
                                               "every returned status is compared with the version the file held when the query looked at it",
                                       "sample": cstage["sample"]}
+        if kstage:
+            states += kstage["states"]
+            transitions += kstage["transitions"]
+            runs += kstage["runs"]
+            events += kstage["events"]
+            rep.cov["conc_stage"] = {"schedules_replayed": kstage["scenarios"], "gate_events_validated": kstage["events"], "relistings_seen": kstage["relists"],
+                                     "rule": "HistoryConc.tla (a latest-status / recent-history query = listing + one visit per file, against the recorder's compaction "
+                                             "create / write / unlink and the opening of the next run) checked exhaustively; its simulated behaviours and three fixed "
+                                             "schedules replayed through the verif gates of the real jsondb; HistoryConcTrace.tla matches every gate passage and judges the "
+                                             "returned answer: it must be one the store would have given at some moment while the query ran",
+                                     "sample": kstage["sample"]}
         rep.cov.update({"states": states, "transitions": transitions, "model_checking_runs": runs,
-                        "traces_validated_against_impl": len(verdicts) + (cstage["scenarios"] if cstage else 0), "operations_executed": nops, "trace_events": events,
+                        "traces_validated_against_impl": len(verdicts) + (cstage["scenarios"] if cstage else 0) + (kstage["scenarios"] if kstage else 0), "operations_executed": nops, "trace_events": events,
                         "model_behaviours_replayed": len(scenarios),
                         "evaluations": len(verdicts), "distinct_nontrivial": len({json.dumps(s.get("ops"), sort_keys=True) + s.get("names", "") for s in by_id.values() if len(s.get("ops", [])) >= 5}),
                         "rule": "operation sequences (open/write/close, update, rename, remove-old, remove-all, ageing) over 3 DAG identities mapped to 8 name tables "
